@@ -1270,6 +1270,44 @@ def fault_model_in(line, victim):
     return _join_model_in(f, files, a), _join_model_in(f, [files[i] for i in keep], b), [files[i].split(":")[0] for i in vic]
 
 
+def fault_model_in_path(line, vidx):
+    """path-specific fault: (a) every chunk hash / transform of the ONE scanned path number vidx fails (its hard links stay
+    readable); (b) that path is not scanned at all"""
+    f, files, hashes = _split_model_in(line)
+    vpath = files[vidx].split(":")[0]
+    vic = [i for i, e in enumerate(files) if e.split(":")[0] == vpath]      # a path scanned twice is one path
+    a = []
+    for e in hashes:
+        p = e.split(":")
+        if int(p[0]) in vic:
+            p[3] = "!"
+            if p[1] == "T":
+                p[2] = "!"
+        a.append(":".join(p))
+    keep = [i for i in range(len(files)) if i not in vic]
+    newidx = {old: new for new, old in enumerate(keep)}
+    b = ["%d:%s" % (newidx[int(e.split(":", 1)[0])], e.split(":", 1)[1]) for e in hashes if int(e.split(":", 1)[0]) not in vic]
+    return _join_model_in(f, files, a), _join_model_in(f, [files[i] for i in keep], b), vpath
+
+
+def spec_without_paths(spec, vrel):
+    """the tree spec without the given relative paths (a hard link whose target entry is removed becomes the file)"""
+    spec2 = json.loads(json.dumps(spec))
+    spec2["files"] = [f for f in spec2["files"] if f["p"] not in vrel]
+    spec2["links"] = [l for l in spec2["links"] if l["p"] not in vrel]
+    have = set(f["p"] for f in spec2["files"])
+    for l in list(spec2["links"]):
+        if l["to"] not in have:
+            orig = [f for f in spec["files"] if f["p"] == l["to"]][0]
+            spec2["files"].append({"p": l["p"], "c": orig["c"]})
+            spec2["links"].remove(l)
+            have.add(l["p"])
+            for l2 in spec2["links"]:
+                if l2["to"] == l["to"]:
+                    l2["to"] = l["p"]
+    return spec2
+
+
 def partition_of(line, base=None):
     out = set()
     for ln, h, ps in parse_groups(line):
@@ -1304,9 +1342,10 @@ def model_schedule_check(ctx, n_trees):
 
 
 def model_fault_check(ctx, n_trees):
-    """C15 hook: in the extracted model, failing every read of one inode gives the partition of (a) the model and
-    (b) the implementation on the tree without that inode (single device kind, default filter, no roots: the setting
-    in which the partition cannot depend on when the file left the pipeline)."""
+    """C15 hook: in the extracted model, failing every read of one inode — and, separately, of ONE PATH of a hard-linked
+    inode — gives the partition of (a) the model and (b) the implementation on the tree without that inode / path (single
+    device kind, default filter, no roots: the setting in which the partition cannot depend on when the file left the
+    pipeline)."""
     eng = Engine(ctx, "C03")
     specs = []
     for _ in range(n_trees):
@@ -1365,6 +1404,51 @@ def model_fault_check(ctx, n_trees):
                           "faulty=%s without(model)=%s without(implementation)=%s" % (sorted(vrel), sorted(map(str, pa))[:3], sorted(map(str, pb))[:3],
                                                                                     sorted(map(str, pi or []))[:3]),
                           replay_payload(r, {"victim_paths": sorted(vrel)}), found_input=False)
+            return
+    # path-specific faults (the K5 class, repaired): ONE path of an inode with several hard links cannot be read.  By
+    # C15_readable_not_lost its readable links must be grouped exactly as if the path were not there; the unreadable path
+    # itself is left out when it is tried, or rides along unread behind a readable link of its inode (C15_unread_path_reported)
+    todo = []
+    for r in res:
+        sc = r["out"]["scanned"]
+        by_ino = {}
+        for i, e in enumerate(sc):
+            by_ino.setdefault((e[1], e[2]), set()).add(e[0])
+        multi = [i for i, e in enumerate(sc) if len(by_ino[(e[1], e[2])]) > 1]
+        if not multi:
+            continue
+        vidx = ctx.rng.choice(multi)
+        a, b, vpath = fault_model_in_path(r["out"]["model_in"], vidx)
+        base = os.fsencode(r["case"]["base_dir"]) + b"/"
+        vrel = unhex_path(vpath)[len(base):].decode("latin1")
+        sibs = set(unhex_path(p)[len(base):] for p in by_ino[(sc[vidx][1], sc[vidx][2])]) - {vrel.encode("latin1")}
+        todo.append((r, a, b, spec_without_paths(r["spec"], {vrel}), base, vrel, sibs))
+    if not todo:
+        return
+    ma = core.run_lines_parallel(eng.model, [t[1] for t in todo])
+    mb = core.run_lines_parallel(eng.model, [t[2] for t in todo])
+    impl = eng.run_specs([t[3] for t in todo])
+    for (r, a, b, spec2, base, vrel, sibs), oa, ob, ri in zip(todo, ma, mb, impl):
+        ctx.count()
+        ctx.distinct(("model_path_fault", json.dumps(r["spec"], sort_keys=True), vrel), len(r.get("groups", [])) > 0)
+        if oa.startswith("EXN") or ob.startswith("EXN"):
+            ctx.violation({"kind": "model_fault_hook_failed"}, "model failed: %s / %s" % (oa[:200], ob[:200]), replay_payload(r), found_input=False)
+            return
+        v = vrel.encode("latin1")
+        pa_full, pb = partition_of(oa, base), partition_of(ob, base)
+        rides = [g for g in pa_full if v in g[1]]
+        ctx.bump("model_path_fault_hook", "victim_%s" % ("rides_along_unread" if rides else "left_out"))
+        bad_ride = [g for g in rides if not (g[1] & sibs)]
+        pa = set((ln, frozenset(ps - {v})) for ln, ps in pa_full)
+        pa = set(g for g in pa if g[1])
+        base2 = os.fsencode(ri["case"]["base_dir"]) + b"/"
+        pi = partition_of(ri["out"].get("impl", "-"), base2) if not ri["out"].get("impl", "ERR").startswith(("ERR", "PANIC")) else None
+        if pa != pb or pa != pi or bad_ride:
+            ctx.violation({"kind": "model_path_fault_not_isolated"},
+                          "failing every read of ONE path (%s) of a hard-linked inode in the extracted model: its readable links are not grouped as in "
+                          "the run without that path: faulty=%s without(model)=%s without(implementation)=%s" % (
+                              vrel, sorted(map(str, pa_full))[:3], sorted(map(str, pb))[:3], sorted(map(str, pi or []))[:3]),
+                          replay_payload(r, {"victim_path": vrel}), found_input=False)
             return
 
 
